@@ -98,6 +98,8 @@ void kll_helper::randomly_halve_down(T* buf, uint32_t start, uint32_t length) {
   const uint32_t half_length = length / 2;
 #ifdef KLL_VALIDATION
   const uint32_t offset = deterministic_offset();
+#elif defined(DATASKETCHES_VERIF)
+  const uint32_t offset = random_utils::verif_random_bit();
 #else
   const uint32_t offset = random_utils::random_bit();
 #endif
@@ -114,6 +116,8 @@ void kll_helper::randomly_halve_up(T* buf, uint32_t start, uint32_t length) {
   const uint32_t half_length = length / 2;
 #ifdef KLL_VALIDATION
   const uint32_t offset = deterministic_offset();
+#elif defined(DATASKETCHES_VERIF)
+  const uint32_t offset = random_utils::verif_random_bit();
 #else
   const uint32_t offset = random_utils::random_bit();
 #endif
